@@ -242,7 +242,10 @@ class RepeatedValueWrapper(MutableSequence[_V], Generic[_M, _V]):
             raise ValueError(
                 f'attempt to assign sequence of size {len(values)} to extended slice of size '
                 f'{len(raw_indexes_to_update)}')
-        properties.check_reusable(value for value in values if isinstance(value, base.RawModel))
+        # (an element assigned back to its own position stays where it is: v[i] = v[i], v[:] = list(v))
+        properties.check_reusable(
+            value for raw_index, value in zip(raw_indexes_to_update, values)
+            if isinstance(value, base.RawModel) and value is not self._raw_wrapper[raw_index])
         for raw_index, value in zip(raw_indexes_to_update, values):
             if not self._update_raw(self._raw_wrapper[raw_index], value):
                 self._raw_wrapper[raw_index] = self._to_raw_type(value)
